@@ -201,7 +201,7 @@ pub(crate) mod verif_l3_table {
         kani::cover!(true, "reach_end");
     }
 
-    //@ob id=L3.table.update_aircraft.2 flags=noassert props=C03,C11,C12,C19 tier=quick kind=harness fns=planes.rs:Planes::update_aircraft bounded=2-existing-rows
+    //@ob id=L3.table.update_aircraft.2 flags=noassert props=C03,C11,C12,C19,C01 tier=quick kind=harness fns=planes.rs:Planes::update_aircraft bounded=2-existing-rows
     //@region update_aircraft on a table of 2 rows with symbolic distinct keys, symbolic frame address, df, -U, -R: only the row of that address is touched (created iff absent, once), path = downlink record iff df<20 and not -U, all other rows identical, no duplicate key
     #[kani::proof]
     #[kani::unwind(6)]
@@ -213,7 +213,7 @@ pub(crate) mod verif_l3_table {
         check_update_aircraft(&keys);
     }
 
-    //@ob id=L3.table.update_aircraft.0 flags=noassert props=C03,C11,C12 tier=quick kind=harness fns=planes.rs:Planes::update_aircraft bounded=empty-table
+    //@ob id=L3.table.update_aircraft.0 flags=noassert props=C03,C11,C12,C01 tier=quick kind=harness fns=planes.rs:Planes::update_aircraft bounded=empty-table
     //@region update_aircraft on the empty table: the first frame creates exactly one row keyed by its address
     #[kani::proof]
     #[kani::unwind(6)]
@@ -225,7 +225,7 @@ pub(crate) mod verif_l3_table {
         check_update_aircraft(&keys);
     }
 
-    //@ob id=L3.table.update_aircraft.3 flags=noassert props=C03,C11,C12,C19 tier=thorough kind=harness fns=planes.rs:Planes::update_aircraft bounded=3-existing-rows
+    //@ob id=L3.table.update_aircraft.3 flags=noassert props=C03,C11,C12,C19,C01 tier=thorough kind=harness fns=planes.rs:Planes::update_aircraft bounded=3-existing-rows
     //@region as L3.table.update_aircraft.2 with 3 rows
     #[kani::proof]
     #[kani::unwind(6)]
@@ -293,7 +293,7 @@ pub(crate) mod verif_l3_table {
         kani::cover!(true, "reach_end");
     }
 
-    //@ob id=L3.table.cleanup.2 flags=noassert props=C12 tier=quick kind=harness fns=planes.rs:Planes::cleanup,counters.rs:increment_cleanup_count,counters.rs:reset_cleanup_count bounded=2-rows
+    //@ob id=L3.table.cleanup.2 flags=noassert props=C12,C01 tier=quick kind=harness fns=planes.rs:Planes::cleanup,counters.rs:increment_cleanup_count,counters.rs:reset_cleanup_count bounded=2-rows
     //@region cleanup on a table of 2 rows: symbolic last-contact stamps and `now` (any instants of 2026), delete_after in [1, 10^6], sweep counter in 0..=11: sweep iff counter > 10; a sweep keeps exactly the rows with whole-second age < delete_after; counter invariant <= 11 (so a sweep happens within 12 accepted frames)
     #[kani::proof]
     #[kani::unwind(6)]
@@ -301,7 +301,7 @@ pub(crate) mod verif_l3_table {
         check_cleanup::<2>();
     }
 
-    //@ob id=L3.table.cleanup.3 flags=noassert props=C12 tier=thorough kind=harness fns=planes.rs:Planes::cleanup bounded=3-rows
+    //@ob id=L3.table.cleanup.3 flags=noassert props=C12,C01 tier=thorough kind=harness fns=planes.rs:Planes::cleanup bounded=3-rows
     //@region as L3.table.cleanup.2 with 3 rows
     #[kani::proof]
     #[kani::unwind(6)]
